@@ -251,6 +251,45 @@ pub fn run_tree_mode(ctx: &mut Ctx, bytes: &[u8], rename_mode: bool) -> Result<b
                 if rn.get("error").is_none() && text.contains("/build/packages/") {
                     return Err(fail(lsp, format!("renaming the local symbol `{}` edits a file under build/packages: {}", o.text, clip(&text, 400)), "edits-dependency"));
                 }
+                // every edit of an accepted rename, read the way a client reads it (its own document,
+                // UTF-16 columns), selects exactly the old name in the file the edit names
+                if rn.get("error").is_none() {
+                    let mut per_file: Vec<(String, Value)> = vec![];
+                    if let Some(ch) = rn["result"]["changes"].as_object() {
+                        for (u, es) in ch {
+                            per_file.push((u.clone(), es.clone()));
+                        }
+                    }
+                    if let Some(dc) = rn["result"]["documentChanges"].as_array() {
+                        for d in dc {
+                            if let Some(u) = d["textDocument"]["uri"].as_str() {
+                                per_file.push((u.to_string(), d["edits"].clone()));
+                            }
+                        }
+                    }
+                    let mut n_files = 0;
+                    for (u, es) in per_file {
+                        let Some(fi) = (0..sw.ws.files.len()).find(|&fi| sw.ws.files[fi].module.is_some() && norm(&uri(fi)) == norm(&u)) else {
+                            return Err(fail(lsp, format!("renaming `{}` carries an edit for {} which is no file of the workspace", o.text, u), "rename-edit-range"));
+                        };
+                        n_files += 1;
+                        for e in es.as_array().cloned().unwrap_or_default() {
+                            let r = &e["range"];
+                            let p = |v: &Value| Pos { line: v["line"].as_u64().unwrap_or(u64::MAX) as u32, col: v["character"].as_u64().unwrap_or(u64::MAX) as u32 };
+                            let sel = docs[fi].slice(p(&r["start"]), p(&r["end"]));
+                            if sel != Some(o.text.as_str()) {
+                                return Err(fail(
+                                    lsp,
+                                    format!("renaming `{}` (asked in {}): the edit {} for {} selects {:?} in the client's document, not the old name", o.text, sw.ws.files[o.file].path, r, sw.ws.files[fi].path, sel),
+                                    "rename-edit-range",
+                                ));
+                            }
+                        }
+                    }
+                    if n_files >= 2 {
+                        ctx.class("rename over LSP with edits in several files: every range selects the old name");
+                    }
+                }
                 ctx.class(if external { "rename refused for build/packages symbol" } else { "rename of a local symbol leaves dependencies alone" });
             }
         }
